@@ -139,7 +139,7 @@ def main(argv):
     os.makedirs(work)
 
     jobs = []
-    stats = {'sources': 0, 'compiled': 0, 'bundled': 0, 'generated': 0, 'generated_compiled': 0}
+    stats = {'sources': 0, 'compiled': 0, 'bundled': 0, 'generated': 0, 'generated_compiled': 0, 'pcb_calls': 0, 'pcb_calls_compiled': 0}
     if h_ok and not replay:
         # (a) bundled binaries
         bundled = sorted(glob.glob(os.path.join(REPO, 'tests/integration/bits-2-bits/*')))
@@ -213,6 +213,44 @@ def main(argv):
             for s_ in [[]] + rng.sample(ALL_SUBSETS[1:], 1 if tier == 'quick' else 4):
                 w = rng.choice([1, 20, 40, 80, 100, 200]) if tier == 'quick' else rng.randint(1, 200)
                 jobs.append({'tool': tool, 'game': game, 'binary': binary, 'mapfiles': [DEFAULT_MAPS[tool], mp], 'opts': s_, 'width': w, 'tag': 'generated:%s%d' % (tool, i)})
+        # (d) generated PCB-style call sites (TH07/TH08 ECL): argument registers assigned in canonical, shuffled or partial
+        #     order before `call(sub)`, several call sites per sub (the decompiler infers each sub's signature from them)
+        npcb = 24 if tier == 'quick' else 600
+        def pcb_source(r2):
+            ints = ['ARG_A', 'ARG_B', 'ARG_C', 'ARG_D']; floats = ['ARG_R', 'ARG_S', 'ARG_M', 'ARG_N']
+            nsub = r2.randint(1, 3)
+            sigs = [(r2.randint(0, 2), r2.randint(0, 2)) for _ in range(nsub)]
+            out = ['script timeline0 {}', '']
+            for k in range(nsub): out.append('void testSub%d() {}' % k); out.append('')
+            out.append('void sub%d() {' % nsub)
+            for _ in range(r2.randint(2, 5)):
+                k = r2.randrange(nsub); ni, nf = sigs[k]
+                regs = [(x, True) for x in ints[:ni]] + [(x, False) for x in floats[:nf]]
+                mode = r2.random()
+                if mode < 0.45: r2.shuffle(regs)
+                elif mode < 0.6 and regs: regs.pop(r2.randrange(len(regs)))
+                for (x, is_int) in regs:
+                    out.append('    %s = %s;' % (x, str(r2.randint(-5, 9)) if is_int else '%d.0' % r2.randint(0, 9)))
+                    if r2.random() < 0.15: out.append('    I0 = %d;' % r2.randint(0, 3))
+                out.append('    call(testSub%d);' % k)
+            out.append('}'); out.append('')
+            return '\n'.join(out)
+        def compile_pcb(i):
+            r2 = random.Random(seed * 7919 + i)
+            game = r2.choice(['07', '08'])
+            d = os.path.join(work, 'pcb%d' % i); os.makedirs(d, exist_ok=True)
+            src = os.path.join(d, 'in.spec'); open(src, 'w').write(pcb_source(r2))
+            out = os.path.join(d, 'in.bin')
+            rc, err = cli(['truecl', 'compile', '-g', game, src, '-o', out, '-m', 'map/any.eclm'], cwd=REPO)
+            if rc != 0 or not os.path.exists(out): return None
+            return (game, out, i)
+        with ThreadPoolExecutor(16) as ex:
+            pcb_bins = [r for r in ex.map(compile_pcb, range(npcb)) if r]
+        stats['pcb_calls'] = npcb; stats['pcb_calls_compiled'] = len(pcb_bins)
+        for game, binary, i in pcb_bins:
+            for s_ in [[]] + rng.sample(ALL_SUBSETS[1:], 1 if tier == 'quick' else 3):
+                w = rng.choice([20, 80, 100]) if tier == 'quick' else rng.randint(1, 200)
+                jobs.append({'tool': 'truecl', 'game': game, 'binary': binary, 'mapfiles': ['map/any.eclm'], 'opts': s_, 'width': w, 'tag': 'generated:pcbcalls%d' % i})
     if replay:
         r = json.load(open(replay))
         j = r['job']
@@ -257,7 +295,7 @@ def main(argv):
     v.coverage.update({
         'evaluations': len(results),
         'distinct_nontrivial': distinct,
-        'rule': 'one evaluation = decompile (option subset, line width) + recompile (original as image source for ANM) + byte comparison through the CLI built from the working tree; inputs: bundled binaries, every compilable source harvested from the repository tests (tests/integration/*.rs source_test! bodies x Format templates), and generated control-flow programs (the C07 harness generator: loops, if/else chains, breaks, near-miss shapes, time labels; ANM th12 and ECL th07); distinct = distinct (binary, options, width) that round-tripped; runs where decompile printed a warning are excluded as the property allows',
+        'rule': 'one evaluation = decompile (option subset, line width) + recompile (original as image source for ANM) + byte comparison through the CLI built from the working tree; inputs: bundled binaries, every compilable source harvested from the repository tests (tests/integration/*.rs source_test! bodies x Format templates), and generated control-flow programs (the C07 harness generator: loops, if/else chains, breaks, near-miss shapes, time labels; ANM th12 and ECL th07), and generated TH07/TH08 ECL call sites with argument registers in canonical / shuffled / partial order; distinct = distinct (binary, options, width) that round-tripped; runs where decompile printed a warning are excluded as the property allows',
         'status_histogram': hist, 'corpus': stats,
         'traces_validated_against_impl': len(results),
         'samples': [r['job'] for r in results[:1] + results[-2:]],
